@@ -15,7 +15,7 @@ E = 4
 T = f"memref<{E}xi32>"
 RULE = (
     "two case families. kernels: public functions with 3 memref arguments (no memory space), local allocs and 1-12 linalg.generic kernels "
-    "(1-2 inputs; in a quarter of the cases 30% of the kernels accumulate, i.e. read their own output) in straight-line code and scf.for nests (0-2 trips), compiled with set-memory-space,realize-memref-casts[,clear-memory-space]; "
+    "(1-2 inputs; in a quarter of the cases every kernel operand standing for 1-3 of the arguments gets its own snax.layout_cast to a tiled layout on top of the L1 cast - chains of casts, inserted between set-memory-space and realize-memref-casts as set-memory-layout would; in a quarter of the cases 30% of the kernels accumulate, i.e. read their own output) in straight-line code and scf.for nests (0-2 trips), compiled with set-memory-space,realize-memref-casts[,clear-memory-space]; "
     "reference = the program as written (kernels operate on the arguments directly), subject = the compiled program where every alloc is a "
     "distinct buffer holding site-tagged garbage and copies move contents; both executed on symbolic buffer contents. Oracles: static - SSA "
     "dominance of the output, every linalg operand in L1, argument types in L3; data - every kernel execution reads the provenance the "
@@ -104,13 +104,16 @@ def kernels_emit(ast):
     return "\n".join(L)
 
 
-def first_use_is_read(ast, what="discipline"):
+def first_use_is_read(ast, what="discipline", lc_args=()):
     """Discipline (DESIGN.md 5.0): for every *cast value*, its first use in program order is a read, or it is never
     read.  set-memory-space creates one cast per argument and block scope: a kernel uses the cast created by an
     earlier kernel on the same argument iff that kernel's block encloses it."""
     casts: dict[str, list] = {}
 
     def use(arg, path, kind):
+        if int(arg[2:]) in lc_args:
+            casts.setdefault(arg, []).append({"path": path, "kinds": [kind]})  # its own layout cast: a stand-in with one use
+            return
         for c in casts.setdefault(arg, []):
             if path[: len(c["path"])] == c["path"]:
                 c["kinds"].append(kind)
@@ -146,6 +149,49 @@ def reads_of(m):
     return [(tag, read) for _, tag, _, read in m.oplog if not str(tag).startswith("copy")]
 
 
+LAYOUTS = ["[2, 2] -> (1, 2)", "[2, 2] -> (2, 1)", "[4] -> (1)"]
+
+
+def compile_with_layout_casts(src, lc_args, clear):
+    """set-memory-space, then what set-memory-layout does for an accelerator that wants a tiled layout - every kernel operand
+    that stands for one of the arguments in lc_args gets its own snax.layout_cast (a chain memory_space_cast -> layout_cast
+    with a single user) - then realize-memref-casts."""
+    from xdsl.dialects import linalg
+    from xdsl.dialects.memref import MemorySpaceCastOp
+    from xdsl.ir import BlockArgument
+    from xdsl.parser import Parser
+    from xdsl.rewriter import InsertPoint, Rewriter
+
+    from snaxc.dialects.snax import LayoutCast
+
+    try:
+        ctx, mod = compat.parse(src)
+    except Exception as e:
+        raise Rejected("parse", e)
+    try:
+        compat.run_passes(ctx, mod, "set-memory-space")
+    except Exception as e:
+        raise Rejected("set-memory-space", e)
+    n = 0
+    for op in list(mod.walk()):
+        if not isinstance(op, linalg.GenericOp):
+            continue
+        for j, v in enumerate(op.operands):
+            o = v.owner
+            if isinstance(o, MemorySpaceCastOp) and isinstance(o.source, BlockArgument) and o.source.index in lc_args:
+                ty = Parser(ctx, f'memref<{E}xi32, #tsl.tsl<{LAYOUTS[(n + o.source.index) % len(LAYOUTS)]}>, "L1">').parse_type()
+                lc = LayoutCast(v, ty)
+                Rewriter().insert_op(lc, InsertPoint.before(op))
+                op.operands[j] = lc.dest
+                n += 1
+    try:
+        mod.verify()
+        compat.run_passes(ctx, mod, "realize-memref-casts" + (",clear-memory-space" if clear else ""))
+    except Exception as e:
+        raise Rejected("realize-memref-casts", e)
+    return mod, n
+
+
 def run_kernels(case, out):
     from xdsl.dialects import func, linalg
 
@@ -153,7 +199,11 @@ def run_kernels(case, out):
     spec = "set-memory-space,realize-memref-casts" + (",clear-memory-space" if case["clear"] else "")
     try:
         P = compile_variant(src, None)
-        S = compile_variant(src, spec)
+        if case.get("lc_args"):
+            S, n_lc = compile_with_layout_casts(src, case["lc_args"], case["clear"])
+            out["probes"]["layout-cast-chains"] = n_lc
+        else:
+            S = compile_variant(src, spec)
     except Rejected as r:
         out["status"] = "rejected"
         out["rejected"] = f"{r.stage.split(',')[-1]}:{r.cls}"
@@ -178,7 +228,7 @@ def run_kernels(case, out):
                         out.update(status="violation", oracle="function-boundary", message=f"argument type {t} does not keep the external memory space")
                         return out
     changed = "memref.copy" in compat.text(S)
-    judged = first_use_is_read(case["ast"])
+    judged = first_use_is_read(case["ast"], lc_args=case.get("lc_args", ()))
     kernels = 0
     digests = []
     for i, env in enumerate(case["envs"]):
@@ -409,7 +459,11 @@ def gen_case(rng, tier):
     accum = rng.choice([0, 0, 0, 0.3])
     ast = KGen(rng, accum).program()
     envs = [{"n": [rng.choice([0, 1, 2]), rng.choice([0, 1, 2])]} for _ in range(K_ENVS[tier])]
-    return {"fam": "kernels", "ast": ast, "envs": envs, "clear": rng.random() < 0.2}
+    case = {"fam": "kernels", "ast": ast, "envs": envs, "clear": rng.random() < 0.2}
+    if rng.random() < 0.25:
+        # chains of casts: every kernel operand standing for these arguments gets its own layout cast on top of the L1 cast
+        case["lc_args"] = sorted(rng.sample([0, 1, 2], rng.choice([1, 1, 2, 3])))
+    return case
 
 
 def execute(case):
@@ -435,7 +489,7 @@ def _kf_c12_1(case, outcome):
     """the first use of some cast value is a kernel that accumulates into it (reads its own output)"""
     import re
 
-    if not (case.get("fam") == "kernels" and outcome.get("oracle") == "data" and first_use_is_read(case["ast"], "accumulating-first")):
+    if not (case.get("fam") == "kernels" and outcome.get("oracle") == "data" and first_use_is_read(case["ast"], "accumulating-first", case.get("lc_args", ()))):
         return False
     # ... and the first kernel that reads other data than in the reference is an accumulating one
     m = re.search(r"reference reads \('k(\d+)'", outcome.get("message") or "")
@@ -462,6 +516,11 @@ def shrink(case):
         yield dict(case, ast={"body": nb})
     if case["clear"]:
         yield dict(case, clear=False)
+    if case.get("lc_args"):
+        yield {k: v for k, v in case.items() if k != "lc_args"}
+        for a in case["lc_args"]:
+            if len(case["lc_args"]) > 1:
+                yield dict(case, lc_args=[x for x in case["lc_args"] if x != a])
 
 
 def sample_of(case):
